@@ -204,3 +204,14 @@ Proof.
   - cbn. eexists. split; [reflexivity|]. eexists. split; reflexivity.
   - cbn. eexists. split; [reflexivity|]. eexists. reflexivity.
 Qed.
+
+(* the insert that also returns the state the sorter is left in after a failure (used to follow a caller
+   who goes on after a transient ChunkCreator failure: correspondence of C08) has the results of fs_insert *)
+Theorem C12_sorter_resumable_insert : forall c cr mf st k v,
+  match fs_insert c cr mf st k v with
+  | Done st' => fs_insert_r c cr mf st k v = (st', Done tt)
+  | Panic => snd (fs_insert_r c cr mf st k v) = Panic
+  | Fail e => snd (fs_insert_r c cr mf st k v) = Fail e
+  end.
+Proof. exact fs_insert_r_agrees. Qed.
+Print Assumptions C12_sorter_resumable_insert.
